@@ -37,6 +37,12 @@ impl EasingFunction for Sq { fn calc(&self, x: f32) -> f32 { x * x } }
 #[derive(Clone, Debug)] pub struct OutSq;
 impl EasingFunction for OutSq { fn calc(&self, x: f32) -> f32 { 2.0 * x - x * x } }
 
+/// Custom easings that leave [0,1] (a custom easing must be used as given, C13).
+#[derive(Clone, Debug)] pub struct Over;
+impl EasingFunction for Over { fn calc(&self, x: f32) -> f32 { 2.5 * x - 1.5 * x * x } }
+#[derive(Clone, Debug)] pub struct Under;
+impl EasingFunction for Under { fn calc(&self, x: f32) -> f32 { 1.5 * x * x - 0.5 * x } }
+
 pub const BUILTIN_NAMES: [&str; 29] = ["Linear","Ease","In","Out","InOut","InSine","OutSine","InOutSine","InQuad","OutQuad","InOutQuad","InCubic","OutCubic","InOutCubic","InQuart","OutQuart","InOutQuart","InQuint","OutQuint","InOutQuint","InExpo","OutExpo","InOutExpo","InCirc","OutCirc","InOutCirc","InBack","OutBack","InOutBack"];
 
 pub fn builtin(i: usize) -> Easing {
@@ -47,16 +53,18 @@ pub fn builtin(i: usize) -> Easing {
       _ => panic!("easing index") }
 }
 
-/// Easing ids shared with the spec: 1 Lin, 2 Sq (custom x^2), 3 OutSq (custom 2x-x^2), 10+i built-in i.
+/// Easing ids shared with the spec: 1 Lin, 2 Sq (custom x^2), 3 OutSq (custom 2x-x^2), 4 Over / 5 Under
+/// (customs leaving [0,1]), 10+i built-in i.
 pub fn easing(id: i64) -> Easing {
     match id { 1 => Easing::Linear, 2 => Easing::Custom(Box::new(Sq)), 3 => Easing::Custom(Box::new(OutSq)),
+        4 => Easing::Custom(Box::new(Over)), 5 => Easing::Custom(Box::new(Under)),
         i if (10..39).contains(&i) => builtin((i - 10) as usize), _ => panic!("easing id {id}") }
 }
 
 /// The oracle's easing: exact for the model easings, the implementation's own `calc` for
 /// built-ins (their correctness is C13's business, not the structural checks').
 pub fn ease_f64(id: i64, x: f64) -> f64 {
-    match id { 1 => x, 2 => x * x, 3 => 2.0 * x - x * x, _ => easing(id).calc(x as f32) as f64 }
+    match id { 1 => x, 2 => x * x, 3 => 2.0 * x - x * x, 4 => 2.5 * x - 1.5 * x * x, 5 => 1.5 * x * x - 0.5 * x, _ => easing(id).calc(x as f32) as f64 }
 }
 
 pub struct TermVal { pub v: f64, pub mag: f64, pub tie: bool, pub untouched: bool }
